@@ -123,7 +123,7 @@ func runC03(c *Ctx) {
 		c.fail("C03.anchor", "pkg/gossip state types", token.NoPos, "unresolved:"+g.missing)
 		return
 	}
-	c.floor("C03.R1", 8)
+	c.floor("C03.R1", 5)
 	// --- R1: digest handler ---
 	if fn := p.Func(gsPkg, "packetListener.digest"); fn != nil {
 		c.analysed(fnName(fn))
@@ -208,114 +208,8 @@ func runC03(c *Ctx) {
 		steps := []func(ssa.Instruction) bool{isCallTo(gsFn("clusterState).ApplyDelta"), func(cc *ssa.CallCommon) bool { return isDecodedDelta(cc.Args[1]) })}
 		onEveryOKPath(c, "C03.R1", fn, "applies-decoded-delta", steps, []string{"ApplyDelta(decoded delta)"})
 	}
-	// the stream join handler also learns the joiner's nodes and answers with everything the joiner lacks
-	if fn := p.Func(gsPkg, "streamListener.join"); fn != nil {
-		digestT := p.NamedType(gsPkg, "digest")
-		isDecodedDigest := func(v ssa.Value) bool {
-			u, ok := strip(v).(*ssa.UnOp)
-			if !ok || u.Op != token.MUL {
-				return false
-			}
-			al, ok := u.X.(*ssa.Alloc)
-			if !ok || !types.Identical(al.Type().(*types.Pointer).Elem(), digestT) {
-				return false
-			}
-			for _, r := range *al.Referrers() {
-				if mi, ok := r.(*ssa.MakeInterface); ok {
-					for _, rr := range *mi.Referrers() {
-						if cl, ok := rr.(*ssa.Call); ok && strings.HasSuffix(commonName(&cl.Call), "decoder).Decode") {
-							return true
-						}
-					}
-				}
-			}
-			return false
-		}
-		var reply *ssa.Call
-		steps := []func(ssa.Instruction) bool{
-			isCallTo(gsFn("clusterState).ApplyDigest"), func(cc *ssa.CallCommon) bool { return isDecodedDigest(cc.Args[1]) }),
-			func(i ssa.Instruction) bool {
-				ok := isCallTo(gsFn("clusterState).Delta"), func(cc *ssa.CallCommon) bool {
-					full, isK := constBool(cc.Args[2])
-					return isDecodedDigest(cc.Args[1]) && isK && full
-				})(i)
-				if ok {
-					reply = i.(*ssa.Call)
-				}
-				return ok
-			},
-			isCallTo(gsFn("encoder).Encode"), func(cc *ssa.CallCommon) bool {
-				if reply == nil {
-					return false
-				}
-				mi, ok := cc.Args[1].(*ssa.MakeInterface)
-				if !ok {
-					return false
-				}
-				// the reply is spilled into the `delta` local and loaded back
-				if strip(mi.X) == ssa.Value(reply) {
-					return true
-				}
-				if u, ok := strip(mi.X).(*ssa.UnOp); ok {
-					if al, ok := u.X.(*ssa.Alloc); ok {
-						for _, r := range *al.Referrers() {
-							if st, ok := r.(*ssa.Store); ok && st.Val == ssa.Value(reply) {
-								return true
-							}
-						}
-					}
-				}
-				return false
-			}),
-			func(i ssa.Instruction) bool { return isCall(i, "(*bufio.Writer).Flush") },
-		}
-		onEveryOKPath(c, "C03.R1", fn, "join-exchange", steps, []string{"ApplyDigest(decoded digest)", "Delta(decoded digest, full=true)", "Encode(that delta)", "Flush"})
-	}
-	// the digest handler answers a request with its own digest, marked as a response (never a request: no ping-pong)
-	if fn := p.Func(gsPkg, "packetListener.digest"); fn != nil {
-		fs := computeFacts(fn)
-		reqF := p.Field(gsPkg, "digestHeader", "Request")
-		isReq := func(f Fact) bool { _, ok := loadedField(f.V, reqF); return ok }
-		var sends []ssa.Instruction
-		for _, call := range findCalls(fn, gsFn("packetListener).sendDigest")) {
-			sends = append(sends, call)
-			cc := callCommon(call)
-			facts := fs.At(call.Block())
-			onReq := anyFact(facts, func(f Fact) bool { return isReq(f) && f.T })
-			resp, isK := constBool(cc.Args[3])
-			_, isDigest := strip(cc.Args[1]).(*ssa.Call)
-			c.check(onReq && isK && !resp && isDigest, "C03.R1", fnName(fn)+"/answers-request-with-response-digest", call.Pos(), "sendDigest(state.Digest(), header.Addr, request=false) only when the received digest was a request",
-				"the digest reply is not sent exactly for requests, or is itself marked as a request (two nodes then answer each other forever); facts "+factStrings(facts))
-		}
-		// every successful path that handled a request has sent it
-		bad := ""
-		paths, complete := enumPathsAt(fn.Blocks[0], 0, func(i ssa.Instruction) bool {
-			for _, s := range sends {
-				if s == i {
-					return true
-				}
-			}
-			return false
-		}, nil, nil, 400)
-		if !complete {
-			bad = "too many paths"
-		}
-		for _, pa := range paths {
-			if pa.endWhy != "return" {
-				continue
-			}
-			rv := returnValues(pa.end.(*ssa.Return))
-			if len(rv) > 0 && !isNilConst(rv[len(rv)-1]) {
-				continue
-			}
-			wasReq := anyFact(pa.facts, func(f Fact) bool { return isReq(f) && f.T })
-			notReq := anyFact(pa.facts, func(f Fact) bool { return isReq(f) && !f.T })
-			if len(pa.seen) == 0 && (wasReq || !notReq) {
-				bad = "a successful path that handled a request (or never looked at header.Request) does not send the digest back"
-			}
-		}
-		c.check(bad == "" && len(sends) > 0, "C03.R1", fnName(fn)+"/request-always-answered", fn.Pos(), "every successful handling of a request digest sends our digest", "the two-way exchange is broken: "+bad)
-	}
+	// Deliberately not enforced (see DESIGN.md C03): the reply digest of the push-pull round, ApplyDigest and the
+	// full-digest reply of the stream join. Each only speeds convergence up; removing it leaves the property true.
 	// --- R2: discovery at version 0; Digest reports Version ---
 	c.floor("C03.R2", 2)
 	if fn := p.Func(gsPkg, "clusterState.ApplyDigest"); fn != nil {
@@ -1162,13 +1056,14 @@ func windowOf(v ssa.Value, windowsF *types.Var, nodeID ssa.Value) bool {
 	return rec(v)
 }
 
-// c03Delta (C03.R7): the reply to a digest withholds nothing it should carry.
-// Every digest entry of a known node yields deltaEntry(entry.ID, entry.Version),
-// appended unless it is empty; with a full digest every node the digest does not
-// name yields deltaEntry(id, 0).
+// c03Delta (C03.R7): the reply to a digest withholds nothing it must carry:
+// every digest entry of a known node yields deltaEntry(entry.ID, entry.Version),
+// and the result is appended unless it has no entries. (The full-digest arm of
+// the join reply - deltaEntry(id, 0) for nodes the joiner did not name - only
+// speeds the joiner up and is not enforced.)
 func c03Delta(c *Ctx, g *gossipAnchors) {
 	p := c.P
-	c.floor("C03.R7", 3)
+	c.floor("C03.R7", 2)
 	fn := p.Func(gsPkg, "clusterState.Delta")
 	if fn == nil {
 		c.fail("C03.anchor", "clusterState.Delta", token.NoPos, "not found")
@@ -1176,12 +1071,6 @@ func c03Delta(c *Ctx, g *gossipAnchors) {
 	}
 	c.analysed(fnName(fn))
 	fs := computeFacts(fn)
-	var fullP ssa.Value
-	for _, pp := range fn.Params {
-		if b, ok := pp.Type().Underlying().(*types.Basic); ok && b.Kind() == types.Bool {
-			fullP = pp
-		}
-	}
 	isRangeOK := func(f Fact) bool {
 		if ex, ok := f.V.(*ssa.Extract); ok {
 			if _, isNext := ex.Tuple.(*ssa.Next); isNext && ex.Index == 0 {
@@ -1189,7 +1078,6 @@ func c03Delta(c *Ctx, g *gossipAnchors) {
 			}
 		}
 		if bo, ok := f.V.(*ssa.BinOp); ok && bo.Op == token.LSS {
-			// either polarity: inside the range loop, or after it has finished
 			if cl, ok := bo.Y.(*ssa.Call); ok {
 				if b, ok := cl.Call.Value.(*ssa.Builtin); ok && b.Name() == "len" {
 					_, isParam := cl.Call.Args[0].(*ssa.Parameter)
@@ -1199,16 +1087,8 @@ func c03Delta(c *Ctx, g *gossipAnchors) {
 		}
 		return false
 	}
-	lookupOf := func(f Fact) (*ssa.Lookup, bool) {
-		ex, ok := f.V.(*ssa.Extract)
-		if !ok || ex.Index != 1 {
-			return nil, false
-		}
-		lk, ok := ex.Tuple.(*ssa.Lookup)
-		return lk, ok
-	}
-	isDigestSet := func(v ssa.Value) bool { _, ok := v.(*ssa.MakeMap); return ok }
-	lenPositive := func(f Fact, res ssa.Value) bool {
+	entriesF := p.Field(gsPkg, "deltaEntry", "Entries")
+	lenPositive := func(f Fact) bool {
 		isLenOfEntries := func(v ssa.Value) bool {
 			cl, ok := v.(*ssa.Call)
 			if !ok {
@@ -1218,80 +1098,48 @@ func c03Delta(c *Ctx, g *gossipAnchors) {
 			if !ok || b.Name() != "len" {
 				return false
 			}
-			_, ok = loadedField(cl.Call.Args[0], p.Field(gsPkg, "deltaEntry", "Entries"))
+			_, ok = loadedField(cl.Call.Args[0], entriesF)
 			return ok
 		}
 		zero := func(v ssa.Value) bool { k, ok := constInt(v); return ok && k == 0 }
 		one := func(v ssa.Value) bool { k, ok := constInt(v); return ok && k == 1 }
 		return cmpFact(f, token.GTR, isLenOfEntries, zero) || cmpFact(f, token.NEQ, isLenOfEntries, zero) || cmpFact(f, token.GEQ, isLenOfEntries, one)
 	}
-	var calls []*ssa.Call
+	nA := 0
 	allInstrs(fn, func(i ssa.Instruction) {
-		if cl, ok := i.(*ssa.Call); ok && strings.HasSuffix(commonName(&cl.Call), "clusterState).deltaEntry") {
-			calls = append(calls, cl)
+		cl, ok := i.(*ssa.Call)
+		if !ok || !strings.HasSuffix(commonName(&cl.Call), "clusterState).deltaEntry") {
+			return
 		}
-	})
-	nA, nB := 0, 0
-	for _, cl := range calls {
 		id, ver := cl.Call.Args[1], cl.Call.Args[2]
-		facts := fs.At(cl.Block())
-		k, isConst := constInt(ver)
-		full := isConst && k == 0
+		if k, isConst := constInt(ver); isConst && k == 0 {
+			return // the full-digest arm
+		}
+		nA++
 		bad := ""
-		sawFull, sawMiss := false, false
-		for _, f := range facts {
-			switch {
-			case isRangeOK(f):
-			case fullP != nil && f.V == fullP && f.T:
-				sawFull = true
-			default:
-				if lk, ok := lookupOf(f); ok && sameValue(lk.Index, id) {
-					if _, isNodes := loadedField(lk.X, g.nodesF); isNodes && f.T && !full {
-						continue
-					}
-					if isDigestSet(lk.X) && !f.T && full {
-						sawMiss = true
+		for _, f := range fs.At(cl.Block()) {
+			if isRangeOK(f) {
+				continue
+			}
+			if ex, ok := f.V.(*ssa.Extract); ok && ex.Index == 1 && f.T {
+				if lk, ok := ex.Tuple.(*ssa.Lookup); ok && sameValue(lk.Index, id) {
+					if _, isNodes := loadedField(lk.X, g.nodesF); isNodes {
 						continue
 					}
 				}
-				bad = "under the extra condition " + f.String()
 			}
+			if pv, ok := f.V.(*ssa.Parameter); ok && !f.T && pv.Type().Underlying() == types.Typ[types.Bool] {
+				continue // e.g. an arm that is not the full-digest one
+			}
+			bad = "under the extra condition " + f.String()
 		}
-		if full {
-			nB++
-			if bad == "" && fullP != nil && !sawFull {
-				bad = "not restricted to a full digest"
-			}
-			if bad == "" && !sawMiss {
-				bad = "not restricted to nodes the digest does not name"
-			}
-			// the key ranges over the nodes table
-			ex, ok := strip(id).(*ssa.Extract)
-			if ok {
-				if nx, ok := ex.Tuple.(*ssa.Next); ok {
-					if rg, ok := nx.Iter.(*ssa.Range); ok {
-						if _, isNodes := loadedField(rg.X, g.nodesF); !isNodes {
-							bad = "the id does not range over the nodes table"
-						}
-					}
-				}
-			} else {
-				bad = "the id does not range over the nodes table"
-			}
-			c.check(bad == "", "C03.R7", fnName(fn)+"/full-digest-covers-unnamed-nodes", cl.Pos(), "deltaEntry(id, 0) for exactly the known nodes a full digest does not name",
-				"the reply to a full digest (join) does not carry exactly the nodes the joiner has never heard of: "+bad)
-		} else {
-			nA++
-			// (entry.ID, entry.Version) of one digest element
-			b1, ok1 := loadedField(id, p.Field(gsPkg, "digestEntry", "ID"))
-			b2, ok2 := loadedField(ver, p.Field(gsPkg, "digestEntry", "Version"))
-			if !(ok1 && ok2 && strip(b1) == strip(b2)) {
-				bad = "the id and version do not come from one digest entry"
-			}
-			c.check(bad == "", "C03.R7", fnName(fn)+"/answers-every-known-node", cl.Pos(), "deltaEntry(entry.ID, entry.Version) for every digest entry whose node is known",
-				"some digest entries of known nodes are not answered, or are answered from the wrong version: "+bad)
+		b1, ok1 := loadedField(id, p.Field(gsPkg, "digestEntry", "ID"))
+		b2, ok2 := loadedField(ver, p.Field(gsPkg, "digestEntry", "Version"))
+		if !(ok1 && ok2 && strip(b1) == strip(b2)) {
+			bad = "the id and version do not come from one digest entry"
 		}
-		// appended unless empty
+		c.check(bad == "", "C03.R7", fnName(fn)+"/answers-every-known-node", cl.Pos(), "deltaEntry(entry.ID, entry.Version) for every digest entry whose node is known",
+			"some digest entries of known nodes are not answered, or are answered from the wrong version: "+bad)
 		isAppend := func(i ssa.Instruction) bool {
 			ac, ok := i.(*ssa.Call)
 			if !ok {
@@ -1309,43 +1157,14 @@ func c03Delta(c *Ctx, g *gossipAnchors) {
 			if len(pa.seen) > 0 {
 				continue
 			}
-			empty := anyFact(pa.facts, func(f Fact) bool { nf := f; nf.T = !f.T; return lenPositive(nf, cl) })
+			empty := anyFact(pa.facts, func(f Fact) bool { nf := f; nf.T = !f.T; return lenPositive(nf) })
 			if !empty {
 				bad2 = "a path from the call ends at " + p.pos(pa.end.Pos()) + " without appending the result and without knowing it is empty; facts " + factStrings(pa.facts)
 			}
 		}
-		kind := "answer"
-		if full {
-			kind = "full-digest"
-		}
-		c.check(bad2 == "", "C03.R7", fnName(fn)+"/appended-unless-empty["+kind+"]", cl.Pos(), "the computed entry is appended unless it has no entries", "the computed difference is dropped: "+bad2)
-	}
+		c.check(bad2 == "", "C03.R7", fnName(fn)+"/appended-unless-empty", cl.Pos(), "the computed entry is appended unless it has no entries", "the computed difference is dropped: "+bad2)
+	})
 	if nA == 0 {
 		c.fail("C03.R7", fnName(fn)+"/answers-every-known-node", fn.Pos(), "no deltaEntry(entry.ID, entry.Version) call found")
-	}
-	if fullP != nil && nB == 0 {
-		c.fail("C03.R7", fnName(fn)+"/full-digest-covers-unnamed-nodes", fn.Pos(), "the full-digest arm is missing")
-	}
-	// the set of named nodes is filled for every digest entry
-	if nB > 0 {
-		n := 0
-		allInstrs(fn, func(i ssa.Instruction) {
-			mu, ok := i.(*ssa.MapUpdate)
-			if !ok || !isDigestSet(mu.Map) {
-				return
-			}
-			n++
-			extra := ""
-			for _, f := range fs.At(mu.Block()) {
-				if !isRangeOK(f) {
-					extra = f.String()
-				}
-			}
-			_, isID := loadedField(mu.Key, p.Field(gsPkg, "digestEntry", "ID"))
-			c.check(extra == "" && isID, "C03.R7", fnName(fn)+"/named-set-complete", mu.Pos(), "every digest entry's id is recorded", "not every digest entry is recorded as named (condition "+extra+"): nodes the joiner already knows are sent again from version 0, or unknown ones are not sent")
-		})
-		if n == 0 {
-			c.fail("C03.R7", fnName(fn)+"/named-set-complete", fn.Pos(), "the set of nodes named by the digest is never filled")
-		}
 	}
 }
